@@ -15,9 +15,9 @@ open Alpaqa Alpaqa.Proto Alpaqa.C18
 
 def int64Min : Int := -9223372036854775808
 
-/-- `static_cast<int64_t>(double)`; out-of-range / NaN is undefined behaviour in C++ — what
-    x86-64 `cvttsd2si` returns is reproduced only so that the two streams stay aligned on the
-    inputs that demonstrate the overflow finding (no theorem covers that case). -/
+/-- `static_cast<int64_t>(double)`.  The model only converts values strictly inside the `int64`
+    range (everything else is rejected first); the guard below only matters when the driver is
+    run against a tree without that range check (it reproduces x86-64 `cvttsd2si`). -/
 instance : DurScalar Float where
   ofInt := Float.ofInt
   trunc x :=
@@ -76,7 +76,6 @@ def fmtLeaf : Option (Leaf Float) → String
   | some (.r v) => "r" ++ fmtF v
   | some (.v xs) =>
     if xs.isEmpty then "v0" else s!"v{xs.length}:" ++ String.intercalate "," (xs.map fmtF)
-  | some (.vpart n _) => s!"vsize:{n}"
 
 def pathOf (s : String) : Path := if s = "" then [] else s.splitOn "."
 
@@ -153,12 +152,7 @@ def c18Step (_ : Unit) (line : String) : Unit × String :=
             setParams Gen.C18.env Gen.C18.durCfg oracle 16 kind pfx.toList (opts.map String.toList) st0
           let status := match err with | none => "ok" | some e => "exc:" ++ errName e
           let usedS := if used.isEmpty then "-" else String.intercalate "," (used.map toString)
-          let vals := pre.map fun (p, old) =>
-            match st p, old with
-            | some (.vpart n done), .v xs =>
-              if n == xs.length then fmtLeaf (some (.v (done ++ xs.drop done.length)))
-              else fmtLeaf (st p)
-            | l, _ => fmtLeaf l
+          let vals := pre.map fun (p, _) => fmtLeaf (st p)
           pure (String.intercalate " " (status :: usedS :: toString n :: vals))) r
     | _ => some "bad-op"
   ((), out.getD "parse-error")
